@@ -361,4 +361,104 @@ theorem signedMult_exact (wa a wb b : Nat) (hwa : 0 < wa) (hwb : 0 < wb) (ha : a
     nlinarith [mul_nonneg (sub_nonneg.2 (le_of_lt h2)) (sub_nonneg.2 (le_of_lt h4)), mul_nonneg (sub_nonneg.2 h1) (sub_nonneg.2 h3),
       mul_nonneg (sub_nonneg.2 (le_of_lt h2)) (sub_nonneg.2 h3), mul_nonneg (sub_nonneg.2 h1) (sub_nonneg.2 (le_of_lt h4))]
 
+
+/-! ### `rtllib.multipliers.signed_tree_multiplier` -/
+
+/-- the magnitude that `_twos_comp_conditional(w, msb w)` produces -/
+theorem twosComp_magnitude (w a : Nat) (hw : 0 < w) (ha : a < 2 ^ w) :
+    (twosCompCond (w, a) (msb (w, a) == 1)).1 = w ∧
+    (twosCompCond (w, a) (msb (w, a) == 1)).2 ≤ 2 ^ (w - 1) ∧
+    (((twosCompCond (w, a) (msb (w, a) == 1)).2 : Nat) : Int) =
+      (if 2 ^ (w - 1) ≤ a then -toSigned (w, a) else toSigned (w, a)) := by
+  have h2 : 2 ^ w = 2 * 2 ^ (w - 1) := by
+    rw [show w = (w - 1) + 1 by omega, Nat.pow_succ]; simp; ring
+  have hp : 0 < 2 ^ (w - 1) := Nat.two_pow_pos _
+  rw [toSigned_eq w a hw ha, msb_eq w a hw ha]
+  by_cases h : 2 ^ (w - 1) ≤ a
+  · simp only [h, ↓reduceIte, twosCompCond, beq_self_eq_true]
+    have e : (2 ^ w - 1 - a + 1) % 2 ^ w = 2 ^ w - a := by
+      rw [show 2 ^ w - 1 - a + 1 = 2 ^ w - a by omega]
+      exact Nat.mod_eq_of_lt (by omega)
+    rw [e]
+    refine ⟨trivial, by omega, ?_⟩
+    push_cast [Nat.cast_sub (le_of_lt ha)]
+    ring
+  · simp only [h, ↓reduceIte, twosCompCond]
+    refine ⟨?_, ?_, ?_⟩ <;> simp <;> omega
+
+theorem ite_one_beq (P : Prop) [Decidable P] : ((if P then (1 : Nat) else 0) == 1) = decide P := by
+  by_cases h : P <;> simp [h]
+
+/-- a small non-negative value reads as itself -/
+theorem toSigned_small (W p : Nat) (hW : 2 ≤ W) (hp : p ≤ 2 ^ (W - 2)) : toSigned (W, p) = (p : Int) := by
+  have h4 : 2 ^ W = 4 * 2 ^ (W - 2) := by
+    rw [show W = (W - 2) + 2 by omega, Nat.pow_add]; simp; ring
+  have h2 : 2 ^ (W - 1) = 2 * 2 ^ (W - 2) := by
+    rw [show W - 1 = (W - 2) + 1 by omega, Nat.pow_succ]; ring
+  have hq : 0 < 2 ^ (W - 2) := Nat.two_pow_pos _
+  have h2i : ((2 ^ (W - 1) : Nat) : Int) = 2 * ((2 ^ (W - 2) : Nat) : Int) := by exact_mod_cast h2
+  have hpi : (p : Int) ≤ ((2 ^ (W - 2) : Nat) : Int) := by exact_mod_cast hp
+  have hqi : (0 : Int) < ((2 ^ (W - 2) : Nat) : Int) := by exact_mod_cast hq
+  apply toSigned_congr W p (p : Int) 0 (by omega) (by omega)
+  · simp
+  · rw [h2i]; omega
+  · rw [h2i]; omega
+
+/-- the conditional two's complement of a small value reads as its negation -/
+theorem toSigned_neg_small (W p : Nat) (hW : 2 ≤ W) (hp : p ≤ 2 ^ (W - 2)) :
+    toSigned (W, (2 ^ W - 1 - p + 1) % 2 ^ W) = -(p : Int) := by
+  have h4 : 2 ^ W = 4 * 2 ^ (W - 2) := by
+    rw [show W = (W - 2) + 2 by omega, Nat.pow_add]; simp; ring
+  have h2 : 2 ^ (W - 1) = 2 * 2 ^ (W - 2) := by
+    rw [show W - 1 = (W - 2) + 1 by omega, Nat.pow_succ]; ring
+  have hq : 0 < 2 ^ (W - 2) := Nat.two_pow_pos _
+  have h2i : ((2 ^ (W - 1) : Nat) : Int) = 2 * ((2 ^ (W - 2) : Nat) : Int) := by exact_mod_cast h2
+  have hpi : (p : Int) ≤ ((2 ^ (W - 2) : Nat) : Int) := by exact_mod_cast hp
+  have hqi : (0 : Int) < ((2 ^ (W - 2) : Nat) : Int) := by exact_mod_cast hq
+  have hp0 : (0 : Int) ≤ (p : Int) := Int.natCast_nonneg p
+  have e : 2 ^ W - 1 - p + 1 = 2 ^ W - p := by omega
+  rw [e]
+  by_cases h0 : p = 0
+  · subst h0
+    simp only [Nat.sub_zero, Nat.mod_self]
+    apply toSigned_congr W 0 _ 0 (by omega) (Nat.two_pow_pos _)
+    · simp
+    · rw [h2i]; simp
+    · rw [h2i]; simp
+  · rw [Nat.mod_eq_of_lt (by omega)]
+    apply toSigned_congr W _ _ 1 (by omega) (by omega)
+    · rw [Nat.cast_sub (by omega : p ≤ 2 ^ W)]; ring
+    · rw [h2i]; omega
+    · rw [h2i]; omega
+
+theorem signedTreeMult_exact (mul : Sig → Sig → Sig) (hmul : ∀ x y : Sig, mul x y = (x.1 + y.1, x.2 * y.2))
+    (wa a wb b : Nat) (hwa : 0 < wa) (hwb : 0 < wb) (ha : a < 2 ^ wa) (hb : b < 2 ^ wb) :
+    (signedTreeMult mul (wa, a) (wb, b)).1 = wa + wb ∧
+    toSigned (signedTreeMult mul (wa, a) (wb, b)) = toSigned (wa, a) * toSigned (wb, b) := by
+  unfold signedTreeMult
+  simp only []
+  obtain ⟨hA1, hAle, hAv⟩ := twosComp_magnitude wa a hwa ha
+  obtain ⟨hB1, hBle, hBv⟩ := twosComp_magnitude wb b hwb hb
+  generalize twosCompCond (wa, a) (msb (wa, a) == 1) = X at *
+  generalize twosCompCond (wb, b) (msb (wb, b) == 1) = Y at *
+  obtain ⟨Xw, x⟩ := X
+  obtain ⟨Yw, y⟩ := Y
+  simp only at hA1 hB1 hAle hBle hAv hBv
+  subst hA1 hB1
+  rw [hmul]
+  simp only [zeroExtended_self]
+  have hW2 : 2 ≤ Xw + Yw := by omega
+  have hpw : 2 ^ (Xw - 1) * 2 ^ (Yw - 1) = 2 ^ (Xw + Yw - 2) := by
+    rw [← Nat.pow_add]; congr 1; omega
+  have hple : x * y ≤ 2 ^ (Xw + Yw - 2) := by rw [← hpw]; exact Nat.mul_le_mul hAle hBle
+  rw [msb_eq Xw a hwa ha, msb_eq Yw b hwb hb, ite_one_beq, ite_one_beq]
+  have hxy : (((x * y : Nat)) : Int) = (x : Int) * (y : Int) := by push_cast; ring
+  by_cases h1 : 2 ^ (Xw - 1) ≤ a <;> by_cases h2 : 2 ^ (Yw - 1) ≤ b <;>
+    simp only [h1, h2, ↓reduceIte, decide_true, decide_false, bne_self_eq_false, Bool.true_bne, Bool.false_bne,
+      Bool.not_true, Bool.not_false, twosCompCond, Bool.false_eq_true] at hAv hBv ⊢
+  · exact ⟨trivial, by rw [toSigned_small _ _ hW2 hple, hxy, hAv, hBv]; ring⟩
+  · exact ⟨trivial, by rw [toSigned_neg_small _ _ hW2 hple, hxy, hAv, hBv]; ring⟩
+  · exact ⟨trivial, by rw [toSigned_neg_small _ _ hW2 hple, hxy, hAv, hBv]; ring⟩
+  · exact ⟨trivial, by rw [toSigned_small _ _ hW2 hple, hxy, hAv, hBv]⟩
+
 end Pyrtl.Ops
